@@ -27,6 +27,30 @@ fn main() {
         vcheck::props::c15::print_configs(args[2] == "thorough");
         return;
     }
+    if args[1] == "fuzz-corpus" {
+        // vcheck fuzz-corpus <target> <dir>
+        let ctx = Ctx::new("C06", Tier::Quick, 0, "exploration", PathBuf::from(std::env::var("VERIF_DIR").unwrap_or_else(|_| "/verif".into())));
+        let n = vcheck::fuzzdec::write_corpus(&args[2], std::path::Path::new(&args[3]), &ctx.known_ls_overrides()).expect("corpus");
+        eprintln!("wrote {} corpus files", n);
+        return;
+    }
+    if args[1] == "fuzz-replay" {
+        // vcheck fuzz-replay <property> <target> <artifact>: re-check a libFuzzer artifact on the stable build
+        vcheck::libapi::install_panic_hook();
+        let verif_dir = PathBuf::from(std::env::var("VERIF_DIR").unwrap_or_else(|_| "/verif".into()));
+        let bytes = std::fs::read(&args[4]).expect("artifact");
+        let case = vcheck::fuzzdec::FuzzCase { target: args[3].clone(), data: vcheck::gen::Hex(bytes) };
+        let level = vcheck::props::level_of(&args[2]);
+        let mut ctx = Ctx::new(&args[2], Tier::Thorough, 0, level, verif_dir.clone());
+        // write a replay file first so that a reproduced violation points at a JSON replay
+        let doc = serde_json::json!({"property": args[2], "sub": "fuzz_input", "tier": "thorough", "seed": 0, "case": serde_json::to_value(&case).unwrap()});
+        let _ = std::fs::create_dir_all(verif_dir.join("replays"));
+        let rp = verif_dir.join("replays").join(format!("{}-fuzz-{}.json", args[2], std::path::Path::new(&args[4]).file_name().unwrap().to_string_lossy()));
+        std::fs::write(&rp, serde_json::to_string_pretty(&doc).unwrap()).expect("write replay");
+        ctx.set_replay("fuzz_input".into(), doc["case"].clone(), rp.display().to_string());
+        let code = run(&ctx);
+        std::process::exit(code);
+    }
     if args[1] == "child" {
         match args[2].as_str() {
             "c09" => vcheck::props::c09::child_main(),
@@ -49,7 +73,7 @@ fn main() {
         let seed = doc["seed"].as_u64().unwrap_or(seed);
         let level = vcheck::props::level_of(&prop);
         let mut ctx = Ctx::new(&prop, tier, seed, level, verif_dir);
-        ctx.set_replay(sub, doc["case"].clone());
+        ctx.set_replay(sub, doc["case"].clone(), args[2].clone());
         run(&ctx)
     } else {
         let prop = args[1].to_uppercase();
